@@ -250,7 +250,7 @@ def fn_variants(kind, n):
         add("getnext", grid(cur=CUR, key=["NULL", K0, K_ABSENT], flag=F))
         for fn in ("freemulti", "size", "sort", "clear", "lockunlock", "free"):
             add(fn)
-        add("save", grid(idx=[0, 1, 2], flag=F)); add("load", grid(idx=[1, 2], flag=F))
+        add("save", grid(idx=[0, 1, 2, 3, 4, 5, 7, 12], flag=F)); add("load", grid(idx=[1, 2], flag=F))
         add("debug", grid(flag=F))
     elif kind == "treetbl":
         KT = KS + [K_LOW, hx("k%02d" % max(0, n - 1)), hx("k%02d" % (n // 2))]
